@@ -14,6 +14,7 @@ import (
 	asmleaf "github.com/tencent/goom/nocgo"
 	"github.com/tencent/goom/zzverif/corpus/conv"
 	"github.com/tencent/goom/zzverif/corpus/fn"
+	"github.com/tencent/goom/zzverif/corpus/vars"
 	"github.com/tencent/goom/zzverif/corpus/ifc"
 	"github.com/tencent/goom/zzverif/corpus/sig"
 )
@@ -182,6 +183,20 @@ func TestVerifRejectScenarios(t *testing.T) {
 		scen{"ret-size-struct", func(b *mocker.Builder) { b.Func(conv.RStruct).Return(conv.SBig{A: 1, B: "a", C: 2}) }, structTok, nil, nil},
 		scen{"ret-size-ptr", func(b *mocker.Builder) { b.Func(conv.RPtr).Return("a string") }, structTok, nil, nil},
 		scen{"when-arg-size-struct", func(b *mocker.Builder) { b.Func(conv.PStruct).When(conv.SBig{A: 1, B: "a", C: 2}).Return(1) }, structTok, nil, nil})
+	// names left empty, instructions in the wrong order (branches of the configuration API that nothing else reaches)
+	more = append(more,
+		scen{"empty-method-name", func(b *mocker.Builder) { b.Struct(&fn.S{}).Method("").Return(1) }, allOrig, nil, nil},
+		scen{"empty-method-name-apply", func(b *mocker.Builder) { b.Struct(&fn.S{}).Method("").Apply(func(s *fn.S, a int) int { return 0 }) }, allOrig, nil, nil},
+		scen{"empty-uemethod-name", func(b *mocker.Builder) { b.Struct(&fn.S{}).ExportMethod("").Apply(func(s *fn.S, a int) int { return 0 }) }, allOrig, nil, nil},
+		scen{"empty-uefunc-name", func(b *mocker.Builder) { b.Pkg(fn.Pkg).ExportFunc("").Apply(func(a int) int { return 0 }) }, allOrig, nil, nil},
+		scen{"iface-empty-method-name", func(b *mocker.Builder) { b.Interface(&ifc.J1).Method("").Apply(func(c *mocker.IContext, a int) int { return 0 }) }, allOrig, nil, nil},
+		scen{"iface-return-before-as", func(b *mocker.Builder) { b.Interface(&ifc.J1).Method("Z").Return(1) }, allOrig, nil, nil},
+		scen{"iface-returns-before-as", func(b *mocker.Builder) { b.Interface(&ifc.J1).Method("Z").Returns(1, 2) }, allOrig, nil, nil},
+		scen{"iface-when-before-as", func(b *mocker.Builder) { b.Interface(&ifc.J1).Method("Z").When(1).Return(1) }, allOrig, nil, nil},
+		scen{"method-when-few", func(b *mocker.Builder) { b.Struct(&sig.S{}).Method("M2").When(1).Return(1) }, allOrig, nil, nil},
+		scen{"nil-func-target", func(b *mocker.Builder) { b.Func(nil).Return(1) }, allOrig, nil, nil},
+		scen{"var-apply-non-func", func(b *mocker.Builder) { b.Var(&vars.SV[0]).Apply(5) }, allOrig, nil, nil},
+		scen{"var-apply-two-results", func(b *mocker.Builder) { b.Var(&vars.SV[0]).Apply(func() (int, int) { return 1, 2 }) }, allOrig, nil, nil})
 	more = append(more, scen{"origin-unrelocatable", func(b *mocker.Builder) {
 		b.Func(fn.Loop).Origin(&fn.OLoop).Apply(func(a int) int { return 3000 + fn.OLoop(a) })
 	}, loopTok, nil, nil})
